@@ -8,7 +8,7 @@ from typing import Dict, List, Optional, Set, Tuple
 
 from ..model import Repo, ClassInfo, FunctionInfo, AnalysisError, walk_no_nested, src, is_self_attr, call_name, dotted, parent, \
     ancestors, enclosing_stmt, const_str
-from ..core import Ob, Rule, Mutant, mutate_module, find_def, find_defs, replace_node, text_mutant
+from ..core import Ob, Rule, Mutant, mutate_module, find_def, find_defs, replace_node, text_mutant, inconclusive
 from ..dataflow import Defs
 from ..cfg import cfg_of
 from ..astq import flatten, norm, template_of, Lit, Hole
@@ -16,6 +16,14 @@ from ..ratfun import Normalizer, RF, Poly
 from .validate import controlling_tests, node_for, loop_heads
 
 IFT = "program/transformer/if_transformer.py"
+
+
+def _emit(obs, rule, key, rp, line, qn, verdict, msg):
+    """verdict True/False -> obligation; None -> inconclusive"""
+    if verdict is None:
+        obs.append(inconclusive(rule, key, rp, line, qn, msg))
+    else:
+        obs.append(Ob(rule, key, rp, line, qn, verdict, msg))
 
 
 def _ifstatem_handler(repo: Repo) -> FunctionInfo:
@@ -63,7 +71,7 @@ def rule_if_flattening(repo: Repo) -> List[Ob]:
         if isinstance(t.ast, ast.Compare) and isinstance(t.ast.ops[0], ast.In) and reach is True and isinstance(t.ast.comparators[0], ast.Name):
             sym_names.add(t.ast.comparators[0].id)
     sym_names -= {rename_map}
-    ok = False
+    ok = None
     why = "no membership test against the condition symbols controls the creation of `_old` copies"
     if sym_names:
         sn = sorted(sym_names)[0]
@@ -75,10 +83,10 @@ def rule_if_flattening(repo: Repo) -> List[Ob]:
         why = ("variables that occur in *any* condition of the if-statement get an `_old` copy when a branch assigns them" if ok else
                f"`{sn}` is computed " + ("inside the branch loop" if inside else "from only part of the conditions") +
                ": a variable tested by an earlier branch and reassigned in a later one is read with its new value by the later guards")
-    obs.append(Ob("M-if-flatten", key + "::old-copies-all-conditions", IFT, stores[0].lineno, m.qualname, ok, why))
+    _emit(obs, "M-if-flatten", key + "::old-copies-all-conditions", IFT, stores[0].lineno, m.qualname, ok, why)
     # R2: the condition handed to the assignments is a renamed *copy*
     adds = [n for n in ast.walk(loop) if isinstance(n, ast.Call) and call_name(n) == "add_to_condition"]
-    ok = False
+    ok = None
     why = "add_to_condition call not found"
     if adds:
         a = adds[0].args[0]
@@ -90,16 +98,16 @@ def rule_if_flattening(repo: Repo) -> List[Ob]:
             before = bool(subs_calls) and c.dominates(node_for(c, subs_calls[0]), node_for(c, adds[0]))
             # every `_old` name must exist before the condition is renamed
             store_first = not c.reachable(node_for(c, subs_calls[0]), node_for(c, stores[0]), avoid=loop_heads(c)) if subs_calls else False
-            ok = copied and before and store_first
+            ok = (copied and before and store_first) if subs_calls or not copied else None
             why = ("each branch's guard is a copy with the `_old` renaming applied (after all `_old` names of the branch exist)" if ok else
                    "the guard given to the assignments is " + ("not a copy" if not copied else "not renamed to the `_old` values before use" if not before else "renamed before the branch's `_old` names are known"))
-    obs.append(Ob("M-if-flatten", key + "::guard-copy-renamed", IFT, adds[0].lineno if adds else m.node.lineno, m.qualname, ok, why))
+    _emit(obs, "M-if-flatten", key + "::guard-copy-renamed", IFT, adds[0].lineno if adds else m.node.lineno, m.qualname, ok, why)
     # R3: negations of all previous conditions accumulate
     acc = None
     for n in ast.walk(loop):
         if isinstance(n, ast.Assign) and isinstance(n.targets[0], ast.Name) and isinstance(n.value, ast.Call) and any(isinstance(x, ast.Call) and call_name(x) == "Not" for x in ast.walk(n.value)):
             acc = n
-    ok = False
+    ok = None
     why = "no accumulation of negated previous conditions"
     if acc is not None:
         nm = acc.targets[0].id
@@ -115,37 +123,45 @@ def rule_if_flattening(repo: Repo) -> List[Ob]:
                f"`{src(acc)}` " + ("forgets the earlier negations: branch k>=3 only excludes its direct predecessor" if not keeps else
                                    "does not negate a copy of the current branch condition" if not (cur and copied) else "is not initialised to true / is updated before the branch is handled"))
         # R4: the branch guard is `And(not_previous, conditions[i])` unless the statement is mutually exclusive
-        guard_ok = False
+        guard_ok = None
         for n in ast.walk(loop):
             if isinstance(n, ast.IfExp) and "mutually_exclusive" in src(n.test):
                 pos, neg = n.body, n.orelse
                 guard_ok = re.fullmatch(r"%s\[%s\]" % (cn, idx), src(pos)) is not None and isinstance(neg, ast.Call) and call_name(neg) == "And" \
                     and {src(x) for x in neg.args} == {nm, f"{cn}[{idx}]"}
-        obs.append(Ob("M-if-flatten", key + "::branch-guard", IFT, loop.lineno, m.qualname, guard_ok,
-                      "branch i is guarded by (not any earlier condition) and condition i; mutually exclusive statements by condition i alone" if guard_ok else
-                      "the guard of a branch is not `And(not_previous, conditions[i])` (or conditions[i] for mutually exclusive statements)"))
-    obs.append(Ob("M-if-flatten", key + "::not-previous", IFT, acc.lineno if acc is not None else loop.lineno, m.qualname, ok, why))
+        _emit(obs, "M-if-flatten", key + "::branch-guard", IFT, loop.lineno, m.qualname, guard_ok,
+              "branch i is guarded by (not any earlier condition) and condition i; mutually exclusive statements by condition i alone" if guard_ok else
+              ("the guard of a branch is not `And(not_previous, conditions[i])` (or conditions[i] for mutually exclusive statements)" if guard_ok is False else "branch guard construction not recognised"))
+    _emit(obs, "M-if-flatten", key + "::not-previous", IFT, acc.lineno if acc is not None else loop.lineno, m.qualname, ok, why)
     # R5: saving assignments come first
     rets = [r.value for r in walk_no_nested(m.node) if isinstance(r, ast.Return)]
-    ok = False
+    ok = None
     if rets:
         r = rets[-1]
         inner = r.args[0] if isinstance(r, ast.Call) and call_name(r) == "tuple" and r.args else r
         if isinstance(inner, ast.Name):
             for v in defs.defs.get(inner.id, []):
                 if isinstance(v, ast.BinOp) and isinstance(v.op, ast.Add) and isinstance(v.left, ast.Name) and isinstance(v.right, ast.Name):
-                    left_vals = defs.defs.get(v.left.id, [])
-                    ok = any(isinstance(x, ast.Call) and "deterministic" in src(x) for x in left_vals)
-    obs.append(Ob("M-if-flatten", key + "::old-copies-first", IFT, m.node.lineno, m.qualname, ok,
-                  "the assignments that save old values precede all branch assignments" if ok else "the `_old = x` assignments are not placed before the flattened branch assignments"))
+                    def saves(nm):
+                        return any(isinstance(x, ast.expr) and "deterministic" in src(x) for x in defs.defs.get(nm, []))
+                    if saves(v.left.id) and not saves(v.right.id):
+                        ok = True
+                    elif saves(v.right.id) and not saves(v.left.id):
+                        ok = False
+    _emit(obs, "M-if-flatten", key + "::old-copies-first", IFT, m.node.lineno, m.qualname, ok,
+          "the assignments that save old values precede all branch assignments" if ok else
+          ("the `_old = x` assignments are placed AFTER the flattened branch assignments" if ok is False else "order of saving assignments not recognised"))
     # R6: else is the last branch with condition true
-    ok = False
+    ok = None
     for n in walk_no_nested(m.node):
         if isinstance(n, ast.If) and "else_branch" in src(n.test):
             body = " ".join(src(x) for x in n.body)
-            ok = re.search(r"%s\.append\(TrueCond\(\)\)" % cn, body) is not None and any(f"{b}.append(" in body and "else_branch" in body for b in branch_names)
-    obs.append(Ob("M-if-flatten", key + "::else-last", IFT, m.node.lineno, m.qualname, ok,
-                  "the else branch is appended as a last branch with condition true" if ok else "the else branch is not appended as `(true, else_branch)`"))
+            if re.search(r"%s\.append\(TrueCond\(\)\)" % cn, body) is not None and any(f"{b}.append(" in body and "else_branch" in body for b in branch_names):
+                ok = True
+            elif "FalseCond()" in body or ".insert(0" in body:
+                ok = False
+    _emit(obs, "M-if-flatten", key + "::else-last", IFT, m.node.lineno, m.qualname, ok,
+          "the else branch is appended as a last branch with condition true" if ok else ("the else branch is not appended as `(true, else_branch)`" if ok is False else "handling of the else branch not recognised"))
     return obs
 
 
@@ -200,14 +216,21 @@ def rule_multi_assign(repo: Repo) -> List[Ob]:
     c = cfg_of(m.node)
     subs = [n for n in ast.walk(loop) if isinstance(n, ast.Call) and call_name(n) == "subs" and isinstance(n.func.value, ast.Name) and n.func.value.id == a]
     renames = [n for n in ast.walk(loop) if isinstance(n, ast.Assign) and any(isinstance(t, ast.Attribute) and t.attr == "variable" for t in n.targets)]
-    ok = bool(subs) and bool(renames) and c.dominates(node_for(c, subs[0]), node_for(c, renames[0])) and subs[0] is getattr(loop.body[0], "value", None)
     smap = src(subs[0].args[0]) if subs and subs[0].args else "?"
-    obs.append(Ob("M-multi-assign", key + "::subs-first", MAT, loop.lineno, m.qualname, ok,
-                  "every assignment first has the pending renamings applied to its right side and condition, then its own target is examined" if ok else
-                  "the pending renamings are not applied to each assignment before its target is handled"))
+    if not subs or not renames:
+        ok = None
+    else:
+        # the renamings must be applied before the assignment's own target is read or re-bound in this iteration
+        reads_target = [n for n in ast.walk(loop) if isinstance(n, ast.Attribute) and n.attr == "variable" and isinstance(n.value, ast.Name) and n.value.id == a]
+        first_use = min((c.node_of(n) for n in reads_target if c.node_of(n) is not None), key=lambda nd: nd.lineno, default=None)
+        sn = node_for(c, subs[0])
+        ok = c.dominates(sn, node_for(c, renames[0])) and (first_use is None or first_use is sn or c.dominates(sn, first_use))
+    _emit(obs, "M-multi-assign", key + "::subs-first", MAT, loop.lineno, m.qualname, ok,
+          "every assignment first has the pending renamings applied to its right side and condition, then its own target is examined" if ok else
+          ("the pending renamings are applied to an assignment only after its target was handled" if ok is False else "application of pending renamings not recognised"))
     # rename only non-final occurrences; final occurrence clears the pending renaming
-    ok = False
-    why = "renaming branch not found"
+    ok = None
+    why = "renaming branch not recognised"
     if renames:
         tests = controlling_tests(c, node_for(c, renames[0]))
         gt1 = [t for t, reach in tests if isinstance(t.ast, ast.Compare) and isinstance(t.ast.ops[0], ast.Gt) and src(t.ast.comparators[0]) == "1" and reach is True]
@@ -221,10 +244,10 @@ def rule_multi_assign(repo: Repo) -> List[Ob]:
             ok = pops and records and decrements
             why = ("all but the last assignment of a variable are renamed (recorded for the following statements, counter decreased); the last one keeps the name and clears the renaming"
                    if ok else "renaming bookkeeping incomplete: " + ", ".join(x for x, y in (("no pop at the last occurrence", pops), ("renaming not recorded", records), ("counter not decreased", decrements)) if not y))
-    obs.append(Ob("M-multi-assign", key + "::bookkeeping", MAT, renames[0].lineno if renames else loop.lineno, m.qualname, ok, why))
+    _emit(obs, "M-multi-assign", key + "::bookkeeping", MAT, renames[0].lineno if renames else loop.lineno, m.qualname, ok, why)
     # fresh name is unique per occurrence: depends on the variable and on both counters
-    ok = False
-    if renames:
+    ok = None
+    if renames and not any(isinstance(x, ast.Call) and isinstance(x.func, ast.Attribute) and isinstance(x.func.value, ast.Name) and x.func.value.id in ("self", "cls") for x in ast.walk(renames[0].value)):
         defs = Defs(m.node, m.params()[0])
         v = renames[0].value
         names = {n.id for n in ast.walk(v) if isinstance(n, ast.Name)}
@@ -233,9 +256,13 @@ def rule_multi_assign(repo: Repo) -> List[Ob]:
                 if isinstance(d, ast.expr):
                     names |= {n.id for n in ast.walk(d) if isinstance(n, ast.Name)}
         cnt = [nm for nm, vals in defs.defs.items() if any(isinstance(x, ast.Call) and ("_get_count_assign_per_var" in src(x) or call_name(x) == "copy") for x in vals if isinstance(x, ast.expr))]
-        ok = "var" in names and len([x for x in cnt if x in names]) >= 2
-    obs.append(Ob("M-multi-assign", key + "::fresh-name", MAT, renames[0].lineno if renames else loop.lineno, m.qualname, ok,
-                  "the new name is built from the variable and its occurrence number (total minus remaining)" if ok else "the new name does not depend on the variable and its occurrence number"))
+        tgt_names = {n.id for n in ast.walk(renames[0].value) if isinstance(n, ast.Name)}
+        has_var = "var" in names or any(isinstance(x, ast.Attribute) and x.attr == "variable" for x in ast.walk(renames[0].value))
+        has_counter = bool([x for x in cnt if x in names]) or any(isinstance(x, ast.Subscript) for x in ast.walk(renames[0].value))
+        ok = True if (has_var and has_counter) else (False if not has_var and not has_counter else None)
+    _emit(obs, "M-multi-assign", key + "::fresh-name", MAT, renames[0].lineno if renames else loop.lineno, m.qualname, ok,
+          "the new name is built from the variable and its occurrence number" if ok else
+          ("the new name depends neither on the variable nor on an occurrence counter" if ok is False else "construction of the new name not recognised"))
     return obs
 
 
@@ -430,6 +457,9 @@ def rule_cond2arithm(repo: Repo) -> List[Ob]:
         blk = [s for s in (getattr(parent(st), "body", []) or [])]
         rewrote = any(isinstance(s, ast.Assign) and any(isinstance(t, ast.Attribute) and t.attr == "polynomials" for t in s.targets) and av in src(s.value) for s in blk)
         ok = eq1 or rewrote
+        if not ok and not any(av in src(t.ast) for t, _ in tests):
+            obs.append(inconclusive("M-cond2arithm", key + f"::drop-condition#{i}", C2A, st.lineno, m.qualname, "condition removal is not controlled by a recognisable test on the indicator"))
+            continue
         obs.append(Ob("M-cond2arithm", key + f"::drop-condition#{i}", C2A, st.lineno, m.qualname, ok,
                       "the condition is dropped only when its indicator is 1 or after the right side was rewritten with the indicator" if ok else
                       f"`{src(st)}` drops the condition under [{' ; '.join(src(t.ast) for t, _ in tests)}]: a condition whose indicator is 0 (never true) would make the assignment unconditional"))
@@ -446,6 +476,9 @@ def rule_cond2arithm(repo: Repo) -> List[Ob]:
             if_t = [f for f in fs if av in f and want_else not in f]
             shapes += 1
             ok = len(else_t) == 1 and len(if_t) == 1 and len(else_t[0]) == 2 and len(if_t[0]) == 2 and any(x.endswith(".default") for x in else_t[0])
+            if not ok and not else_t and not if_t:
+                obs.append(inconclusive("M-cond2arithm", key + f"::rewrite#{shapes}", C2A, n.lineno, m.qualname, "sum does not look like an indicator blend"))
+                continue
             obs.append(Ob("M-cond2arithm", key + f"::rewrite#{shapes}", C2A, n.lineno, m.qualname, ok,
                           "right side becomes indicator * rhs + (1 - indicator) * default" if ok else f"`{src(n)[:80]}` is not indicator * rhs + (1 - indicator) * default"))
     if shapes < 2:
@@ -484,6 +517,15 @@ def rule_fresh_context(repo: Repo) -> List[Ob]:
         c = cfg_of(m.node)
         fresh = [s for s in walk_no_nested(m.node) if isinstance(s, ast.Assign) and any(is_self_attr(t, "context", m.params()[0]) for t in s.targets)
                  and isinstance(s.value, ast.Call) and call_name(s.value) == "RecBuilderContext"]
+        if not fresh:
+            # a helper of the class that installs a fresh context
+            for s in walk_no_nested(m.node):
+                if isinstance(s, ast.Expr) and isinstance(s.value, ast.Call) and isinstance(s.value.func, ast.Attribute) and isinstance(s.value.func.value, ast.Name) \
+                        and s.value.func.value.id == m.params()[0]:
+                    h = cls.find_method(s.value.func.attr)
+                    if h is not None and any(isinstance(x, ast.Assign) and any(is_self_attr(t, "context", h.params()[0]) for t in x.targets)
+                                             and isinstance(x.value, ast.Call) and call_name(x.value) == "RecBuilderContext" for x in walk_no_nested(h.node)):
+                        fresh.append(s)
         heads = loop_heads(c)
         ok = bool(fresh) and c.dominates(node_for(c, fresh[0]), node_for(c, calls[0])) and not any(any(a is h.stmt for a in ancestors(fresh[0])) for h in heads)
         obs.append(Ob("M-fresh-context", f"{RB}::{m.qualname}::context", RB, m.node.lineno, m.qualname, ok,
@@ -539,22 +581,27 @@ def rule_section_tables(repo: Repo) -> List[Ob]:
             if isinstance(c, ast.Call) and call_name(c) == helper.name and c.args:
                 calls.append((m, c))
     secs = set()
-    ok = bool(calls)
+    ok = True if calls else None
     for m, c in calls:
         a = src(c.args[0])
         if re.fullmatch(r"(self\.)?program\.(initial|loop_body)", a):
             secs.add(a.split(".")[-1])
-        else:
+        elif "initial" in a and "loop_body" in a:
             ok = False
-    ok = ok and secs == {"initial", "loop_body"}
-    obs.append(Ob("M-section-tables", f"{UIT}::{helper.qualname}::per-section", UIT, calls[0][1].lineno if calls else helper.node.lineno, helper.qualname, ok,
+        elif ok is not False:
+            ok = None
+    if ok is True and secs != {"initial", "loop_body"}:
+        ok = None
+    _emit(obs, "M-section-tables", f"{UIT}::{helper.qualname}::per-section", UIT, calls[0][1].lineno if calls else helper.node.lineno, helper.qualname, ok,
                   "functional arguments are resolved separately for the initial block and the loop body (tables of unconditioned constants / draws never cross the loop head)" if ok else
-                  f"the resolver is called with {[src(c.args[0]) for _, c in calls]}: facts about the initial block (x is the constant 1) survive into the loop body where x is updated"))
+                  f"the resolver is called with {[src(c.args[0]) for _, c in calls]}: facts about the initial block (x is the constant 1) survive into the loop body where x is updated" if ok is False else "calls of the resolver not recognised")
     # within a section the tables only record *unconditioned* assignments
     conds = [n for n in walk_no_nested(helper.node) if isinstance(n, ast.If) and "isinstance" in src(n.test) and ("DistAssignment" in src(n.test) or "PolyAssignment" in src(n.test))]
-    ok2 = len(conds) >= 2 and all("condition == TrueCond()" in src(n.test) or "isinstance(assign.condition, TrueCond)" in src(n.test) for n in conds)
-    obs.append(Ob("M-section-tables", f"{UIT}::{helper.qualname}::unconditioned-only", UIT, helper.node.lineno, helper.qualname, ok2,
-                  "only unconditioned draws / constants are recorded as the meaning of a variable" if ok2 else "a conditioned assignment can be recorded as the value of a functional argument"))
+    ok2 = None
+    if len(conds) >= 2:
+        ok2 = all("TrueCond" in src(n.test) for n in conds)
+    _emit(obs, "M-section-tables", f"{UIT}::{helper.qualname}::unconditioned-only", UIT, helper.node.lineno, helper.qualname, ok2,
+          "only unconditioned draws / constants are recorded as the meaning of a variable" if ok2 else ("a conditioned assignment can be recorded as the value of a functional argument" if ok2 is False else "recording tests not recognised"))
     return obs
 
 
@@ -773,13 +820,13 @@ def mut_transform_terms(repo: Repo) -> List[Mutant]:
 
 
 RULES = {
-    "IFFLAT": Rule("M-if-flatten", rule_if_flattening, 6, "if/elif/else flattening: `_old` copies for every condition variable, renamed guard copies, accumulated negations, saving assignments first, else last", mut_if_flattening),
-    "MULTIASSIGN": Rule("M-multi-assign", rule_multi_assign, 3, "single-assignment renaming: pending renamings applied first, all but the last occurrence renamed, renaming cleared at the last", mut_multi_assign),
-    "DISTREWRITE": Rule("M-dist-rewrite", rule_dist_rewrite, 4, "location/scale rewriting of Normal/Uniform/Laplace/Exponential draws preserves the law (exact rational-function check of template and fresh parameters)", mut_dist_rewrite),
-    "COND2ARITHM": Rule("M-cond2arithm", rule_cond2arithm, 3, "conditions are dropped only for indicator 1 or after the right side was rewritten as ind*rhs + (1-ind)*default", mut_cond2arithm),
-    "FRESHCTX": Rule("M-fresh-context", rule_fresh_context, 3, "every backward substitution pass of RecBuilder starts from a fresh context", mut_fresh_context),
-    "SECTIONTABLES": Rule("M-section-tables", rule_section_tables, 2, "facts about unconditioned constants / draws are collected per section and only from unconditioned assignments", mut_section_tables),
-    "SOLVERSCOPE": Rule("M-solver-scope", rule_solver_scope, 3, "solver tables are created together with the program / RecBuilder they belong to", mut_solver_scope),
-    "MARKLAST": Rule("M-mark-last", rule_mark_last, 2, "guard marks are propagated onto the finished object that is returned", mut_mark_last),
-    "TRANSFORMTERM": Rule("M-transform-term", rule_transform_terms, 4, "cf/mgf values enter functional moments through the transform (differentiated `Id`-power times); constant shortcuts only under a test on the identity power", mut_transform_terms),
+    "IFFLAT": Rule("M-if-flatten", rule_if_flattening, 6, "if/elif/else flattening: `_old` copies for every condition variable, renamed guard copies, accumulated negations, saving assignments first, else last", mut_if_flattening, soft=True),
+    "MULTIASSIGN": Rule("M-multi-assign", rule_multi_assign, 3, "single-assignment renaming: pending renamings applied first, all but the last occurrence renamed, renaming cleared at the last", mut_multi_assign, soft=True),
+    "DISTREWRITE": Rule("M-dist-rewrite", rule_dist_rewrite, 4, "location/scale rewriting of Normal/Uniform/Laplace/Exponential draws preserves the law (exact rational-function check of template and fresh parameters)", mut_dist_rewrite, soft=True),
+    "COND2ARITHM": Rule("M-cond2arithm", rule_cond2arithm, 3, "conditions are dropped only for indicator 1 or after the right side was rewritten as ind*rhs + (1-ind)*default", mut_cond2arithm, soft=True),
+    "FRESHCTX": Rule("M-fresh-context", rule_fresh_context, 3, "every backward substitution pass of RecBuilder starts from a fresh context", mut_fresh_context, soft=True),
+    "SECTIONTABLES": Rule("M-section-tables", rule_section_tables, 2, "facts about unconditioned constants / draws are collected per section and only from unconditioned assignments", mut_section_tables, soft=True),
+    "SOLVERSCOPE": Rule("M-solver-scope", rule_solver_scope, 3, "solver tables are created together with the program / RecBuilder they belong to", mut_solver_scope, soft=True),
+    "MARKLAST": Rule("M-mark-last", rule_mark_last, 2, "guard marks are propagated onto the finished object that is returned", mut_mark_last, soft=True),
+    "TRANSFORMTERM": Rule("M-transform-term", rule_transform_terms, 4, "cf/mgf values enter functional moments through the transform (differentiated `Id`-power times); constant shortcuts only under a test on the identity power", mut_transform_terms, soft=True),
 }
